@@ -366,6 +366,10 @@ impl Plan {
 
     let secp256k1 = Secp256k1::new();
     let key_pair = UntweakedKeypair::new(&secp256k1, &mut rand::thread_rng());
+    #[cfg(feature = "verif")]
+    let key_pair = crate::verif::entropy()
+      .and_then(|entropy| UntweakedKeypair::from_seckey_slice(&secp256k1, &entropy).ok())
+      .unwrap_or(key_pair);
     let (public_key, _parity) = XOnlyPublicKey::from_keypair(&key_pair);
 
     let reveal_script = Inscription::append_batch_reveal_script(
